@@ -91,10 +91,10 @@ def check(ctx, replay=None):
     phase = standard_proof_phase(ctx, PROP, ["theories/Properties/C04.v"])
     e2e.build_tool()
     rng = ctx.rng
-    nb, per = (10, 14) if ctx.quick() else (80, 16)
+    nb, per = (10, 14) if ctx.quick() else (300, 16)
     bridges, panicky = [], []
     for bi in range(nb):
-        D = G.gen_defs(rng, same_slot=(bi % 3 == 0))
+        D = G.gen_defs(rng, same_slot=(bi % 3 == 0), needs_bound={1: "restated", 2: "omitted"}.get(bi % 3))
         ms = []
         for i in range(per):
             m = G.gen_method(rng, D, f"m{i}", max_lts=4 if rng.random() < 0.9 else 6)
@@ -105,7 +105,7 @@ def check(ctx, replay=None):
         bridges.append((D, ms))
     goals, viol, samples = [], 0, []
     stats = {"methods": 0, "accepted": 0, "rejected": 0, "rejected_defs": 0, "skipped_bridges": 0, "keys": 0, "edges": 0, "struct_edges": 0,
-             "optional_struct_edges": 0, "multi_lifetime_keys": 0, "transitive_keys": 0, "implied_only_keys": 0, "panicky": len(panicky)}
+             "optional_struct_edges": 0, "multi_lifetime_keys": 0, "transitive_keys": 0, "panicky": len(panicky), "crashing_methods": 0, "unusable_bridges": 0}
     nontriv = set()
 
     def violate(key, obj, found=True):
@@ -123,9 +123,21 @@ def check(ctx, replay=None):
         stats["methods"] += len(ms)
         rej_m, rej_d = set(), set()
         if "panic" in o or "parse_error" in o:
-            violate("direct:analysis-crash", {"what": "the borrow analysis crashed or the source did not parse: " + str(o)[:600], "lib_rs": G.rust_source(D, ms)})
-            stats["skipped_bridges"] += 1
-            kept.append(None); continue
+            # find the methods that make the analysis crash, report them, and go on with the others
+            singles, _p = oracle("borrow", [{"src": G.rust_source(D, [m])} for m in ms])
+            crashing = [m for m, so in zip(ms, singles or []) if "panic" in so or "parse_error" in so]
+            for m, so in zip(ms, singles or []):
+                if "panic" in so or "parse_error" in so:
+                    violate("direct:analysis-crash", {"method": m["name"], "what": "lowering / the borrow analysis crashes on this signature instead of reporting edges: " +
+                            str(so.get("panic", so.get("parse_error")))[:400], "lib_rs": G.rust_source(D, [m])})
+            stats["crashing_methods"] += len(crashing)
+            ms = [m for m in ms if m not in crashing]
+            o2, _p = oracle("borrow", [{"src": G.rust_source(D, ms)}])
+            o = o2[0] if o2 else {"panic": "oracle failed"}
+            if not crashing or "panic" in o or "parse_error" in o:
+                violate("direct:analysis-crash", {"what": "the borrow analysis crashed: " + str(o)[:600], "lib_rs": G.rust_source(D, ms)})
+                stats["skipped_bridges"] += 1
+                kept.append(None); continue
         unknown = False
         for msg in o.get("rejected", []):
             ctxname, _, text = msg.partition(": ")
@@ -134,7 +146,7 @@ def check(ctx, replay=None):
             elif "::" in ctxname: rej_m.add(ctxname.split("::")[1])
             else: rej_d.add(ctxname)
         if unknown:
-            stats["skipped_bridges"] += 1
+            stats["skipped_bridges"] += 1; stats["unusable_bridges"] += 1
             kept.append(None); continue
         cd = G.c_defs(D)
         for name in G.ORDER:
@@ -216,13 +228,13 @@ def check(ctx, replay=None):
                 for (r, ls, es), (_, want) in zip(obs, G.spec_map(D, m)):
                     if [e for e in want if e not in es]:
                         violate("direct:missing-edge", {"method": m["name"], "what": "optional slice parameter not reported", "lib_rs": G.rust_source(D, [m])})
-    if stats["skipped_bridges"] * 5 > nb:
-        raise MachineryError(f"C04: {stats['skipped_bridges']} of {nb} generated bridges were not usable (unexpected lowering errors)")
+    if stats["unusable_bridges"] * 5 > nb:
+        raise MachineryError(f"C04: {stats['unusable_bridges']} of {nb} generated bridges were not usable (unexpected lowering errors)")
     # ---- the reading of Rust's rules against rustc itself
-    stats["rustc_pairs_checked"], stats["rustc_pairs_static_bridged"] = rustc_crosscheck(ctx, [(D, ms) for D, ms in accepted_bridges][: (3 if ctx.quick() else 30)])
+    stats["rustc_pairs_checked"], stats["rustc_pairs_static_bridged"] = rustc_crosscheck(ctx, [(D, ms) for D, ms in accepted_bridges][: (3 if ctx.quick() else 100)])
     # ---- what the managed backends attach
     import c04_backends
-    bstats = c04_backends.run(ctx, accepted_bridges[: (3 if ctx.quick() else 20)], violate)
+    bstats = c04_backends.run(ctx, accepted_bridges[: (3 if ctx.quick() else 60)], violate)
     stats.update(bstats)
     fails = run_shards(PROP, HEADER, goals) if goals else []
     if fails and viol == 0:
